@@ -210,7 +210,11 @@ def main(argv=None):
     # ---- failures: known findings vs violations, with replay
     violations = []
     seen_groups = set()
-    os.makedirs(os.path.join(ROOT, "replays", prop), exist_ok=True)
+    rdir = os.path.join(ROOT, "replays", prop)
+    os.makedirs(rdir, exist_ok=True)
+    if not a.only:
+        for old in glob.glob(os.path.join(rdir, "*.json")):      # replay files of earlier runs are stale
+            os.unlink(old)
     for (c, ov, r) in failed:
         group = re.sub(r"#\d+$", "", r["name"])
         k = match_known(known, prop, r)
